@@ -9,6 +9,8 @@ import (
 	"github.com/gogpu/naga/spirv"
 
 	"verif/internal/explore"
+	"verif/internal/glslx"
+	"verif/internal/hlslx"
 	"verif/internal/nagax"
 	"verif/internal/spv"
 	"verif/internal/wgen"
@@ -33,20 +35,46 @@ func c14Resolve(m *ir.Module, pc map[string]float64) (res *ir.Module, es string)
 	return c, ""
 }
 
-// c14Sizes: overrides used as @workgroup_size arguments and as workgroup array sizes, including
-// sizes derived from another override.
+// c14Sizes: overrides used as @workgroup_size arguments (every dimension) and as workgroup array sizes,
+// including sizes derived from another override and sizes given by an override expression. Observed in
+// the resolved module's array type, in the SPIR-V LocalSize, the HLSL
+// numthreads attribute and the GLSL local_size layout (ProcessOverrides route and glsl PipelineConstants).
 func c14Sizes(r *explore.Run) {
-	type prog struct{ name, decl, wgExpr, arrExpr string }
+	type prog struct {
+		name, decl string
+		wg         [3]string
+		arr        string
+		wantWG     func(x float64) [3]float64
+		wantArr    func(x float64) float64
+		key        string
+		noDefault  bool
+	}
+	id := func(x float64) float64 { return x }
+	x1 := func(x float64) [3]float64 { return [3]float64{x, 1, 1} }
 	progs := []prog{
-		{"direct", "override X: u32 = 4u;\n", "X", "X"},
-		{"direct-id", "@id(7) override X: u32 = 4u;\n", "X", "X"},
-		{"nodefault", "override X: u32;\n", "X", "X"},
-		{"derived", "override X: u32 = 4u;\noverride Y: u32 = X * 2u;\n", "Y", "Y"},
-		{"expression", "override X: u32 = 4u;\n", "X + 1u", "X * 2u"},
-		{"i32", "override X: i32 = 4;\n", "X", "X"},
+		{name: "direct", decl: "override X: u32 = 4u;\n", wg: [3]string{"X"}, arr: "X", wantWG: x1, wantArr: id},
+		{name: "direct-id", decl: "@id(7) override X: u32 = 4u;\n", wg: [3]string{"X"}, arr: "X", wantWG: x1, wantArr: id, key: "7"},
+		{name: "nodefault", decl: "override X: u32;\n", wg: [3]string{"X"}, arr: "X", wantWG: x1, wantArr: id, noDefault: true},
+		{name: "derived", decl: "override X: u32 = 4u;\noverride Y: u32 = X * 2u;\n", wg: [3]string{"Y"}, arr: "Y", wantWG: func(x float64) [3]float64 { return [3]float64{2 * x, 1, 1} }, wantArr: func(x float64) float64 { return 2 * x }},
+		{name: "expression", decl: "override X: u32 = 4u;\n", wg: [3]string{"X + 1u"}, arr: "X * 2u", wantWG: func(x float64) [3]float64 { return [3]float64{x + 1, 1, 1} }, wantArr: func(x float64) float64 { return 2 * x }},
+		{name: "i32", decl: "override X: i32 = 4;\n", wg: [3]string{"X"}, arr: "X", wantWG: x1, wantArr: id},
+		{name: "dim-y", decl: "override X: u32 = 4;\n", wg: [3]string{"2", "X"}, arr: "3", wantWG: func(x float64) [3]float64 { return [3]float64{2, x, 1} }, wantArr: func(float64) float64 { return 3 }},
+		{name: "dim-z", decl: "override X: u32 = 4;\n", wg: [3]string{"1", "2", "X"}, arr: "3", wantWG: func(x float64) [3]float64 { return [3]float64{1, 2, x} }, wantArr: func(float64) float64 { return 3 }},
+		{name: "dims-xyz", decl: "override X: u32 = 4;\noverride Y: u32 = X + 1;\n", wg: [3]string{"X", "Y", "2"}, arr: "3", wantWG: func(x float64) [3]float64 { return [3]float64{x, x + 1, 2} }, wantArr: func(float64) float64 { return 3 }},
+		{name: "derived-reverse", decl: "override Y: u32 = X * 2;\noverride X: u32 = 4;\n", wg: [3]string{"Y"}, arr: "3", wantWG: func(x float64) [3]float64 { return [3]float64{2 * x, 1, 1} }, wantArr: func(float64) float64 { return 3 }},
+		{name: "second-entry-point", decl: "override X: u32 = 4;\n@compute @workgroup_size(X, 2) fn aux() { w[1] = 2u; }\n", wg: [3]string{"X"}, arr: "3", wantWG: x1, wantArr: func(float64) float64 { return 3 }},
 	}
 	for _, p := range progs {
-		src := p.decl + "var<workgroup> w: array<u32, " + p.arrExpr + ">;\n@group(0) @binding(0) var<storage, read_write> o: array<u32>;\n@compute @workgroup_size(" + p.wgExpr + ") fn main() { w[0] = 1u; o[0] = w[0]; }\n"
+		wg := p.wg[0]
+		for _, d := range p.wg[1:] {
+			if d != "" {
+				wg += ", " + d
+			}
+		}
+		src := p.decl + "var<workgroup> w: array<u32, " + p.arr + ">;\n@group(0) @binding(0) var<storage, read_write> o: array<u32>;\n@compute @workgroup_size(" + wg + ") fn main() { w[0] = 1u; o[0] = w[0]; }\n"
+		if p.name == "second-entry-point" { // aux is declared after main
+			src = "override X: u32 = 4;\nvar<workgroup> w: array<u32, 3>;\n@group(0) @binding(0) var<storage, read_write> o: array<u32>;\n@compute @workgroup_size(X) fn main() { w[0] = 1u; o[0] = w[0]; }\n@compute @workgroup_size(X, 2) fn aux() { w[1] = 2u; }\n"
+		}
 		m, _, err, pn := nagax.Front(src)
 		if pn != nil {
 			continue
@@ -55,35 +83,24 @@ func c14Sizes(r *explore.Run) {
 			r.Violate(explore.Violation{Key: "C14|sizes|" + p.name + "|front-end:" + errClass(err.Error()), Detail: "valid override program rejected: " + err.Error(), Replay: map[string]any{"src": src}})
 			continue
 		}
-		vals := []float64{1, 7, 64}
 		type vm struct {
 			label string
 			pc    map[string]float64
 			x     float64
 			ok    bool
 		}
-		var maps []vm
-		if p.name != "nodefault" {
-			maps = append(maps, vm{"absent", map[string]float64{}, 4, true})
-		} else {
-			maps = append(maps, vm{"absent", map[string]float64{}, 0, false})
-		}
+		maps := []vm{{"absent", map[string]float64{}, 4, !p.noDefault}}
 		key := "X"
-		if p.name == "direct-id" {
-			key = "7"
+		if p.key != "" {
+			key = p.key
 		}
-		for _, v := range vals {
+		for _, v := range []float64{1, 7, 64} {
 			maps = append(maps, vm{fmt.Sprintf("%s=%v", key, v), map[string]float64{key: v}, v, true})
 		}
 		for _, mp := range maps {
 			r.Count("evaluations", 1)
-			wantWG, wantArr := mp.x, mp.x
-			switch p.name {
-			case "derived":
-				wantWG, wantArr = mp.x*2, mp.x*2
-			case "expression":
-				wantWG, wantArr = mp.x+1, mp.x*2
-			}
+			wantWG, wantArr := p.wantWG(mp.x), p.wantArr(mp.x)
+			m, _, _, _ = nagax.Front(src)
 			res, es := c14Resolve(m, mp.pc)
 			rp := map[string]any{"src": src, "constants": mp.label}
 			if !mp.ok {
@@ -112,14 +129,62 @@ func c14Sizes(r *explore.Run) {
 					}
 				}
 			}
+			check := func(route string, got [3]uint32) {
+				r.Count("evaluations", 1)
+				for d := 0; d < 3; d++ {
+					if float64(got[d]) != wantWG[d] {
+						r.Violate(explore.Violation{Key: "C14|sizes|" + p.name + "|workgroup-size:" + route, Detail: fmt.Sprintf("[%s] %s: workgroup size of main is %v, want %v", mp.label, route, got, wantWG), Replay: rp})
+						return
+					}
+				}
+			}
 			bin, err, pn := nagax.SPIRV(res, spirv.DefaultOptions())
 			if err != nil || pn != nil {
 				r.Violate(explore.Violation{Key: "C14|sizes|" + p.name + "|spirv-error:" + errStr(err, pn), Detail: "SPIR-V backend rejects the resolved module: " + errStr(err, pn), Replay: rp})
-				continue
+			} else if mod, e := spv.Parse(bin); e == nil {
+				if ls, e2 := mod.LocalSize("main"); e2 == nil {
+					check("spirv", ls)
+				}
+				if p.name == "second-entry-point" {
+					if ls, e2 := mod.LocalSize("aux"); e2 == nil {
+						r.Count("evaluations", 1)
+						if float64(ls[0]) != mp.x || ls[1] != 2 {
+							r.Violate(explore.Violation{Key: "C14|sizes|" + p.name + "|workgroup-size:spirv(aux)", Detail: fmt.Sprintf("[%s] workgroup size of the second entry point is %v, want [%v 2 1]", mp.label, ls, mp.x), Replay: rp})
+						}
+					}
+				}
 			}
-			if mod, e := spv.Parse(bin); e == nil {
-				if ls, e2 := mod.LocalSize("main"); e2 == nil && float64(ls[0]) != wantWG {
-					r.Violate(explore.Violation{Key: "C14|sizes|" + p.name + "|workgroup-size", Detail: fmt.Sprintf("[%s] LocalSize is %d, want %v", mp.label, ls[0], wantWG), Replay: rp})
+			if text, _, err, pn := nagax.HLSL(res, nagax.HLSLConfigs(0)[0].Opts); err == nil && pn == nil {
+				if hp, e := hlslx.Parse(text); e == nil {
+					for _, ep := range hp.EntryPoints() {
+						if ep.Name == "main" {
+							check("hlsl", ep.NumThreads)
+						}
+						if ep.Name == "aux" {
+							r.Count("evaluations", 1)
+							if w := ep.NumThreads; float64(w[0]) != mp.x || w[1] != 2 {
+								r.Violate(explore.Violation{Key: "C14|sizes|" + p.name + "|workgroup-size:hlsl(aux)", Detail: fmt.Sprintf("[%s] numthreads of the second entry point is %v, want [%v 2 1]", mp.label, w, mp.x), Replay: rp})
+							}
+						}
+					}
+				}
+			}
+			gopts := nagax.GLSLConfigs(0)[0].Opts
+			gopts.EntryPoint = "main"
+			if text, _, err, pn := nagax.GLSL(res, gopts); err == nil && pn == nil {
+				if gp, e := glslx.Parse(text); e == nil {
+					check("glsl", gp.LocalSize())
+				}
+			}
+			// glsl.Options.PipelineConstants on a fresh module
+			if len(mp.pc) > 0 {
+				fm, _, _, _ := nagax.Front(src)
+				gopts.PipelineConstants = ir.PipelineConstants(pcClone(mp.pc))
+				text, _, err, pn := nagax.GLSL(fm, gopts)
+				if err != nil || pn != nil {
+					r.Violate(explore.Violation{Key: "C14|sizes|" + p.name + "|glsl.PipelineConstants-error:" + errStr(err, pn), Detail: fmt.Sprintf("[%s] glsl.Options.PipelineConstants fails: %s", mp.label, errStr(err, pn)), Replay: rp})
+				} else if gp, e := glslx.Parse(text); e == nil {
+					check("glsl.PipelineConstants", gp.LocalSize())
 				}
 			}
 		}
